@@ -9,7 +9,7 @@ ID = "C17"
 RULE = (
     "C01-style write histories on a calendar, an address book, a second calendar and an optional bare calendar; at generated points a calendar-/addressbook-multiget with 0-8 hrefs (duplicates allowed) drawn from: "
     "live members, deleted members, never-existing names, fully percent-encoded and minimally encoded spellings (sub-delimiters such as ';' left literal), '<name>;1'-style neighbours of live members, absolute URLs, the collection itself, members of other collections, members of the wrong kind, "
-    "hrefs outside the route prefix incl. prefix look-alikes ('/davuser/...' for '/dav/'), empty and malformed hrefs; under every prefix and both front ends. Oracle: answers are matched to requests by decoded path; "
+    "hrefs outside the route prefix incl. prefix look-alikes ('/davuser/...' for '/dav/'), empty and malformed hrefs; under every prefix and both front ends; in between, REPORTs that ask for a *part* of the data (comp/prop selections, novalue, expand, limit-recurrence-set, address-data props; via query or multiget). Oracle: answers are matched to requests by decoded path; "
     "every distinct requested path is answered exactly once; a live member of the right kind carries GET's ETag and body; everything else carries a 404 (response or data property) and no data; the same request "
     "reversed and each href alone give identical per-href answers. Non-trivial: a request mixing >=1 live, >=1 dead and >=1 out-of-namespace (or, under prefix '/', wrong-kind) href; distinct by (classes, href kinds, prefix, front end)."
 )
@@ -33,7 +33,7 @@ def mg_program(draw):
     ]
     cals = ["c1", "c1", "c2"] + (["b1"] if cfg["seed"] else [])
     for _ in range(draw(st.integers(8, 20))):
-        op = draw(st.sampled_from(["PUT"] * 5 + ["DELETE"] * 2 + ["MULTIGET"] * 5 + ["RESTART", "PUTX"]))
+        op = draw(st.sampled_from(["PUT"] * 5 + ["DELETE"] * 2 + ["MULTIGET"] * 5 + ["RESTART", "PUTX", "PARTIAL", "PARTIAL"]))
         fe = draw(gen_prog.FE)
         if op == "PUT":
             if draw(st.integers(0, 3)) == 0:
@@ -50,6 +50,10 @@ def mg_program(draw):
         elif op == "DELETE":
             isab = draw(st.integers(0, 3)) == 0
             steps.append({"op": "DELETE", "fe": fe, "coll": "a1" if isab else draw(st.sampled_from(cals)), "name": draw(st.sampled_from(vcf if isab else ics)), "cond": []})
+        elif op == "PARTIAL":
+            # somebody asks for a part of the data first (comp/prop selection, expansion); the plain multigets that follow must not be affected
+            coll = draw(st.sampled_from(["c1", "c1", "a1", "c2"]))
+            steps.append({"op": "PARTIAL", "fe": fe, "coll": coll, "via": draw(st.sampled_from(["query", "multiget"])), "shape": draw(st.sampled_from(["card-fn", "card-version"] if coll == "a1" else ["summary", "summary", "version-only", "novalue", "expand", "limit"]))})
         elif op == "MULTIGET":
             coll = draw(st.sampled_from(["c1", "c1", "c1", "a1", "c2"] + (["b1"] if cfg["seed"] else [])))
             specs = [{"kind": draw(st.sampled_from(KINDS)), "k": draw(st.integers(0, 5))} for _ in range(draw(st.integers(0, 8)))]
